@@ -37,7 +37,7 @@ ASSUMPTIONS = [
     "simulate is only issued on logistic kinds (documented requirement); estimate uses individual parameters returned by an earlier personalisation of the same history or generated ones.",
     "Bit-exact comparisons (NaN-aware).",
 ]
-REQUIRED_CLASSES = {"input:dataset-object": 30, "call:personalize": 150, "call:estimate": 60, "call:simulate": 40, "after-fit": 150, "call:saveload": 40, "nontrivial": 60}
+REQUIRED_CLASSES = {"input:dataset-object": 30, "settings:nested-annealing": 20, "call:personalize": 150, "call:estimate": 60, "call:simulate": 40, "after-fit": 150, "call:saveload": 40, "nontrivial": 60}
 
 ALGOS = ("scipy_minimize", "mean_posterior", "mode_posterior")
 NEUTRALISE_F64 = True  # see known_findings.json (F64)
@@ -157,11 +157,14 @@ def do_call(model, op, ctx):
             tensors_before = {a: fast_copy(getattr(data_in, a)) for a in ("values", "mask", "timepoints", "event_time", "event_bool")
                               if getattr(data_in, a, None) is not None}
         kw = dict(seed=seed, progress_bar=False)
+        anneal = len(op) > 6 and bool(op[6])
         if algo == "scipy_minimize":
             kw["use_jacobian"] = False
         else:
             kw["n_iter"] = 12
-        key = (algo, seed)
+            if anneal:  # nested settings (the algorithm derives annealing.n_iter from the fraction)
+                kw["annealing"] = dict(do_annealing=True, initial_temperature=5.0, n_plateau=2)
+        key = (algo, seed, anneal)
         settings = ctx["settings"].get(key) if reuse else None
         if settings is None:
             settings = AlgorithmSettings(algo, **kw)
@@ -265,6 +268,8 @@ def run_history(col: Collector, kind_key, cohorts, ops, inp, engine):
             res, ip = do_call(model, op, ctx)
             if name == "personalize" and len(op) > 5 and op[5] == "dataset":
                 classes.append("input:dataset-object")
+            if name == "personalize" and len(op) > 6 and op[6] and op[1] != "scipy_minimize":
+                classes.append("settings:nested-annealing")
             check_snapshot(model, before, name)
             ctx_t = dict(ctx, settings={})
             res_t, _ = do_call(twin, op, ctx_t)
@@ -310,7 +315,8 @@ def _brief(res):
 # ------------------------------------------------------------------------------------------------
 ALPHABET = [["fit", "A", 8, 0], ["personalize", "scipy_minimize", "B", 1, False], ["personalize", "mean_posterior", "B", 1, False],
             ["personalize", "mode_posterior", "B", 1, False], ["estimate", [60.0, 70.5, 66.0], 0], ["simulate", 3], ["saveload"],
-            ["personalize", "scipy_minimize", "B", 1, False, "dataset"], ["personalize", "mean_posterior", "A", 1, False, "dataset"]]
+            ["personalize", "scipy_minimize", "B", 1, False, "dataset"], ["personalize", "mean_posterior", "A", 1, False, "dataset"],
+            ["personalize", "mode_posterior", "B", 1, True, "df", True]]
 
 
 def histories(max_len_all=2):
@@ -323,7 +329,7 @@ def histories(max_len_all=2):
         if h[0] == 0:
             out.append(list(h))
     # Dataset objects handed over by the caller (tensors must come back untouched)
-    for a in (7, 8):
+    for a in (7, 8, 9):
         out.append([0, a])
         out.append([0, a, a])
     # a personalisation in between so that estimate has parameters, and fit -> perso on the SAME cohort
@@ -370,7 +376,7 @@ def gen_history(draw, kind_keys):
                                       features=feats, event=cfg["kind"] == "joint", id_kinds=ids, shuffle=False, fit_ready=(ck == "A")))
     call = st.one_of(
         st.tuples(st.just("personalize"), st.sampled_from(ALGOS), st.sampled_from(["A", "B", "B"]), st.integers(0, 99), st.booleans(),
-                  st.sampled_from(["df", "data", "dataset", "dataset"])).map(list),
+                  st.sampled_from(["df", "data", "dataset", "dataset"]), st.booleans()).map(list),
         st.tuples(st.just("estimate"), st.lists(gen.f32(40, 95), min_size=1, max_size=4), st.just(0)).map(list),
         st.tuples(st.just("simulate"), st.integers(0, 99)).map(list),
         st.just(["saveload"]),
